@@ -539,3 +539,48 @@ def gen_blockwise_multi(rng):
         cmds.append({"k": "add", "regex": "^s%d/" % ((which + 1) % nsg), "operation": "FULLY_CONNECTED", "cfg": pl.UNIFORM[rng.choice(["wo8", "wo4", "drq8"])],
                      "alg": "min_max_uniform_quantize"})
     return Case(mb, info, cmds=cmds, data=gm.random_inputs(mb, rng, n=1), desc=[("blockwise", "all" if which is None else which, nsg)])
+
+
+def gen_runtime_weight(rng, kind=None, mode=None):
+    """an operator with weights whose weight operand is a RUNTIME tensor (a second graph input, or computed from one): what converters emit
+    for tf.matmul(a, b) with a non-constant b (FULLY_CONNECTED) and for convolutions with a computed filter"""
+    kind = kind or rng.choice(["FULLY_CONNECTED", "FULLY_CONNECTED", "CONV_2D", "DEPTHWISE_CONV_2D", "CONV_2D_TRANSPOSE"])
+    mode = mode or rng.choice(["wo8", "drq8", "a8w8", "a16w8", "a8w8", "a16w8"])
+    g = gm.G()
+    g.subgraph()
+    gr = gm.Grower(g, rng, "")
+    pre = rng.random() < 0.4
+
+    def weight(shape):
+        w = gr.add_input(shape)
+        if pre:   # the filter is computed: weight input -> unary operator -> weight operand
+            w2 = gr.new_act(shape)
+            g.op(gm.BO.ABS if rng.random() < 0.5 else gm.BO.NEG, [w], [w2], 0, None)
+            return w2
+        return w
+    if kind == "FULLY_CONNECTED":
+        b_, f, o = rng.randint(1, 3), rng.randint(2, 5), rng.randint(1, 4)
+        x = gr.add_input([b_, f]); w = weight([o, f]); y = gr.new_act([b_, o])
+        bias = gr.const([o], base="b") if rng.random() < 0.5 else -1
+        g.op(gm.BO.FULLY_CONNECTED, [x, w, bias], [y], gm.OPT.FullyConnectedOptions, s.FullyConnectedOptionsT())
+    elif kind == "CONV_2D":
+        c, o = rng.randint(1, 3), rng.randint(1, 3)
+        x = gr.add_input([1, 3, 3, c]); w = weight([o, 2, 2, c]); y = gr.new_act([1, 3, 3, o]); bias = gr.const([o], base="b")
+        op_ = s.Conv2DOptionsT(); op_.padding, op_.strideH, op_.strideW, op_.dilationHFactor, op_.dilationWFactor = s.Padding.SAME, 1, 1, 1, 1
+        g.op(gm.BO.CONV_2D, [x, w, bias], [y], gm.OPT.Conv2DOptions, op_)
+    elif kind == "DEPTHWISE_CONV_2D":
+        c = rng.randint(1, 3)
+        x = gr.add_input([1, 3, 3, c]); w = weight([1, 2, 2, c]); y = gr.new_act([1, 3, 3, c]); bias = gr.const([c], base="b")
+        op_ = s.DepthwiseConv2DOptionsT()
+        op_.padding, op_.strideH, op_.strideW, op_.depthMultiplier, op_.dilationHFactor, op_.dilationWFactor = s.Padding.SAME, 1, 1, 1, 1, 1
+        g.op(gm.BO.DEPTHWISE_CONV_2D, [x, w, bias], [y], gm.OPT.DepthwiseConv2DOptions, op_)
+    else:
+        c, o = rng.randint(1, 3), rng.randint(1, 3)
+        x = gr.add_input([1, 3, 3, c]); w = weight([o, 2, 2, c]); y = gr.new_act([1, 3, 3, o]); osh = gr.iconst([1, 3, 3, o], base="oshape")
+        op_ = s.TransposeConvOptionsT(); op_.padding, op_.strideH, op_.strideW = s.Padding.SAME, 1, 1
+        g.op(gm.BO.TRANSPOSE_CONV, [osh, w, x] + ([gr.const([o], base="b")] if rng.random() < 0.5 else []), [y], gm.OPT.TransposeConvOptions, op_)
+    g.io(gr.inputs, [y], sig="serving_default")
+    mb = g.bytes()
+    info = {"tags": {"runtime_weight"}, "subgraphs": [{"sig": "serving_default", "int_inputs": [], "ops": [kind]}]}
+    cmds = [{"k": "add", "regex": ".*", "operation": kind, "cfg": pl.UNIFORM[mode], "alg": "min_max_uniform_quantize"}]
+    return Case(mb, info, cmds=cmds, data=gm.random_inputs(mb, rng, n=2, scale=1.0), desc=[("runtime weight", kind, mode, pre)])
